@@ -1,6 +1,7 @@
 (* C09 — bulk multiply kernels equal element-wise field multiplication on every
    path and stay inside their buffers.  Model: Model/Kernels.v. *)
-From Gopar Require Import Model.Base Model.GF16 Model.Kernels Proofs.KernelFacts.
+From Gopar Require Import Model.Base Model.GF16 Model.Kernels Model.Ssse3 Proofs.KernelFacts Proofs.Ssse3Facts.
+From Coq Require Import List. Import ListNotations.
 Open Scope N_scope.
 
 (* every path (portable Go, scalar assembly, dispatch with and without SSSE3),
@@ -35,6 +36,45 @@ Theorem C09_kspec_fast : forall acc c inb outb, c < 65536 ->
   kspec_fast acc c inb outb = kspec acc c inb outb.
 Proof. exact kspec_fast_eq. Qed.
 Print Assumptions C09_kspec_fast.
+
+(* ---- instruction-level model of the SSSE3 routines (Model/Ssse3.v: the
+   PSHUFB/PUNPCK/PSRLW/PAND/PXOR sequences of gf2p16/*_amd64.s executed on a
+   16-register machine state; tied to the assembly through the verif hooks,
+   which run each routine on the same registers) ---- *)
+
+(* one 32-byte step of mulSSSE3Unsafe is field multiplication of its 16 words *)
+Theorem C09_ssse3_mul_is_field_mul : forall c in0 in1,
+  c < 65536 -> length in0 = 16%nat -> length in1 = 16%nat -> wf_bytes in0 -> wf_bytes in1 ->
+  let '(o0, o1) := mul_std c in0 in1 in
+  o0 ++ o1 = le_bytes (map (fmul c) (le_words (in0 ++ in1))).
+Proof. exact mul_std_fmul. Qed.
+Print Assumptions C09_ssse3_mul_is_field_mul.
+
+(* mulAndAddSSSE3Unsafe xors the product into the previous output words *)
+Theorem C09_ssse3_muladd : forall c in0 in1 out0 out1,
+  c < 65536 -> length in0 = 16%nat -> length in1 = 16%nat -> wf_bytes in0 -> wf_bytes in1 ->
+  length out0 = 16%nat -> length out1 = 16%nat -> wf_bytes out0 -> wf_bytes out1 ->
+  let '(o0, o1) := muladd_std c in0 in1 out0 out1 in
+  o0 ++ o1 = le_bytes (map2 (fun w o => N.lxor o (word_ssse3 c (w mod 256) (w / 256)))
+                            (le_words (in0 ++ in1)) (le_words (out0 ++ out1))).
+Proof. exact muladd_std_spec. Qed.
+Print Assumptions C09_ssse3_muladd.
+
+(* the standard <-> alternate map byte shuffles are mutually inverse *)
+Theorem C09_ssse3_shuffles_inverse : forall in0 in1,
+  length in0 = 16%nat -> length in1 = 16%nat -> wf_bytes in0 -> wf_bytes in1 ->
+  let '(lo, hi) := std_to_alt in0 in1 in alt_to_std lo hi = (in0, in1).
+Proof. exact alt_std_inverse. Qed.
+Print Assumptions C09_ssse3_shuffles_inverse.
+
+(* the whole slice loop at instruction level is the SSSE3 kernel of Model/Kernels.v
+   (which C09_value proves equal to the specification) *)
+Theorem C09_ssse3_loop_refines_kernel : forall c acc inb outb,
+  c < 65536 -> wf_bytes inb -> wf_bytes outb ->
+  length inb = length outb -> (32 <= length inb)%nat -> lenN inb < two64 ->
+  kern_ssse3 c acc inb outb = Ok (ssse3_chunks c acc inb outb).
+Proof. exact ssse3_chunks_eq_kern. Qed.
+Print Assumptions C09_ssse3_loop_refines_kernel.
 
 Example C09_example :
   kernel (Dispatch true) true 0x1234 (le_bytes [0xFEDC; 7]) (le_bytes [1; 2]) =
